@@ -148,6 +148,7 @@ impl Check for C01 {
             ("corpus-mut".into(), 90_000 * k),
             ("nearmiss".into(), 60_000 * k),
             ("nesting".into(), 6_000 * k),
+            ("marker-key".into(), docs::marker_docs().len() as u64),
         ]
     }
     fn run(&mut self, ctx: &mut Ctx, workload: &str, index: u64, rng: &mut Rng) {
@@ -163,6 +164,10 @@ impl Check for C01 {
             "corpus" => {
                 let f = &docs::corpus()[index as usize];
                 self.judge(ctx, &f.bytes, false);
+            }
+            "marker-key" => {
+                let d = &docs::marker_docs()[index as usize];
+                self.judge(ctx, d.as_bytes(), false);
             }
             "sweep" => {
                 let (slot, doc) = docs::sweep_doc(index);
